@@ -88,7 +88,8 @@ pub fn replay(path: &str) {
                     "construct_unpruned" | "construct_pruned" => {
                         let mut built: Vec<CN> = vec![];
                         for (i, nd) in nodes.iter().enumerate() {
-                            let nd2 = if nd[0] == "witness" { json!(["witness", 0, 0, [cand[i][0], cand[i][1]]]) } else { nd.clone() };
+                            // (a candidate ["none"] leaves the witness node unpopulated: finalisation fills it with the zero value of its type)
+                            let nd2 = if nd[0] == "witness" && cand[i][0] != "none" { json!(["witness", 0, 0, [cand[i][0], cand[i][1]]]) } else if nd[0] == "witness" { json!(["witness", 0, 0]) } else { nd.clone() };
                             let get = |k: usize| built[k - 1].clone();
                             match build_node(&ctx, Family::Core, &nd2, &get) {
                                 Ok(n) => built.push(n),
